@@ -2,13 +2,13 @@
 # tools/sensitivity.sh [patch.diff ...]
 # For each patch: apply to /repo, confirm the repo's own suite still passes (132, with and
 # without --features serde), run both quick checks, record which fired, undo the patch.
-# Default: every patch under /verif/sensitivity/{detect,quiet,quiet-agents,quiet-review,quiet-review2,detect-review2,arguable} and
+# Default: every patch under /verif/sensitivity/{detect,quiet,quiet-agents,quiet-review,quiet-review2,quiet-review3,detect-review2,arguable} and
 # /verif/seeded/*/patch.diff.
 # Writes $VERIF/sensitivity/RESULTS.tsv.  Never leaves /repo modified.
 VERIF="$(cd "$(dirname "$0")/.." && pwd)"
 cd "$VERIF" || exit 2
 [ -z "$(git -C /repo status --porcelain --untracked-files=no)" ] || { echo "refusing: /repo has uncommitted changes"; exit 2; }
-if [ $# -eq 0 ]; then set -- sensitivity/detect/*.diff sensitivity/quiet/*.diff sensitivity/quiet-agents/*.diff sensitivity/quiet-review/*.diff sensitivity/quiet-review2/*.diff sensitivity/detect-review2/*.diff sensitivity/arguable/*.diff seeded/*/patch.diff; fi
+if [ $# -eq 0 ]; then set -- sensitivity/detect/*.diff sensitivity/quiet/*.diff sensitivity/quiet-agents/*.diff sensitivity/quiet-review/*.diff sensitivity/quiet-review2/*.diff sensitivity/quiet-review3/*.diff sensitivity/detect-review2/*.diff sensitivity/arguable/*.diff seeded/*/patch.diff; fi
 out=$VERIF/sensitivity/RESULTS.tsv
 printf 'patch\tsuite\tsuite_serde\tC12\tC12_classes\tC13\tC13_classes\n' > "$out"
 tmp=$(mktemp -d)
